@@ -35,8 +35,12 @@ def generic(obj, depth=0):
     if isinstance(obj, (bytes, bytearray)):
         return 'b' + hx(obj)
     if isinstance(obj, datetime.datetime):
+        # an aware datetime is its instant; a NAIVE one is rendered distinctly (`dtn`): the library takes a datetime
+        # without zone as UTC at construction and at parse, so an attribute that still holds a naive value differs from
+        # what parsing its own composition gives, and must not be rendered as if it were the UTC instant
         if obj.tzinfo is None:
-            obj = obj.replace(tzinfo=datetime.timezone.utc)
+            delta = obj - datetime.datetime(1970, 1, 1)
+            return 'dtn{}'.format(delta // datetime.timedelta(microseconds=1))
         delta = obj - datetime.datetime(1970, 1, 1, tzinfo=datetime.timezone.utc)
         return 'dt{}'.format(delta // datetime.timedelta(microseconds=1))
     if isinstance(obj, datetime.timedelta):
@@ -53,6 +57,11 @@ def generic(obj, depth=0):
         return 'der' + hx(obj.dump())
     if attr.has(type(obj)):
         fields = [(f.name, getattr(obj, f.name)) for f in attr.fields(type(obj))]
+        if type(obj).__name__ == 'TlsHandshakeHelloRandom':
+            # gmt_unix_time is naive BY DESIGN on both sides (constructor and parser; test_handshake pins it): it is the
+            # UTC wall clock of the instant, rendered as that instant whether or not a zone is attached
+            fields = [(k, v.replace(tzinfo=datetime.timezone.utc)
+                       if k == 'time' and isinstance(v, datetime.datetime) and v.tzinfo is None else v) for k, v in fields]
         extra = sorted((k, v) for k, v in getattr(obj, '__dict__', {}).items()
                        if k not in {n for n, _ in fields} and not k.startswith('__'))
         return type(obj).__name__ + '(' + ','.join(
